@@ -1,6 +1,7 @@
 (** C17 — Command-line splitting is total, byte-preserving and reversible for quoted input.
-    This file contains only statements; every proof is [exact <lemma of Proofs/Args.v>]. *)
-From GC Require Import Common.Base Model.Args Proofs.Args.
+    This file contains only statements; every proof is [exact <lemma of Proofs/Args.v>]
+    (second part, from the proof audit: lemmas of Proofs/C17More.v). *)
+From GC Require Import Common.Base Model.Args Proofs.Args Proofs.C17More.
 
 (** Splitting any byte string never panics (termination is structural: [read_args] is a fold
     over the input, so it always returns arguments or an error). *)
@@ -99,3 +100,210 @@ Proof. vm_compute. reflexivity. Qed.
 Theorem C17_F22_refuted_old : read_args_old [BSL; 97] = RPanic.
 Proof. exact read_args_old_panics. Qed.
 Print Assumptions C17_F22_refuted_old.
+
+(** * Proof audit: the clauses at the strength the property states them. *)
+
+(** Arguments or an error, nothing else; and an EOF answer leaves nothing unread. *)
+Theorem C17_outcome : forall input,
+  (exists args eof rest, read_args input = ROk args eof rest /\ (eof = true -> rest = []))
+  \/ read_args input = RErr.
+Proof. exact read_args_outcome. Qed.
+Print Assumptions C17_outcome.
+
+(** SEPARATED BY BLANKS, in full: the tokens of a command may be separated by any run of
+    spaces, tabs and backslash-newline pairs containing at least one blank, and such runs (a
+    blank is not needed there) may stand before the first and behind the last token.
+    Supersedes [C17_tokens] / [C17_tokens_eof] / [C17_words] (one space, nothing around; they
+    are the instance [sp_gaps]) and extends [C17_continuation_token] to continuation lines
+    BETWEEN arguments, at the start and at the end of a command. *)
+Theorem C17_tokens_any_gaps : forall g0 l args r,
+  is_filler g0 = true -> gaps_ok l = true ->
+  Forall2 (token false) (map fst l) args ->
+  read_args (g0 ++ join_gaps l ++ NL :: r) = ROk args false r.
+Proof. exact read_args_tokens_gaps. Qed.
+Print Assumptions C17_tokens_any_gaps.
+
+Theorem C17_tokens_any_gaps_eof : forall g0 l args,
+  is_filler g0 = true -> gaps_ok l = true ->
+  Forall2 (token false) (map fst l) args ->
+  read_args (g0 ++ join_gaps l) = ROk args true [].
+Proof. exact read_args_tokens_gaps_eof. Qed.
+Print Assumptions C17_tokens_any_gaps_eof.
+
+Theorem C17_words_any_blanks : forall g0 l r,
+  is_filler g0 = true -> gaps_ok l = true ->
+  forallb good_word (map fst l) = true ->
+  read_args (g0 ++ join_gaps l ++ NL :: r) = ROk (map fst l) false r.
+Proof. exact read_args_words_gaps. Qed.
+Print Assumptions C17_words_any_blanks.
+
+(** A BACKSLASH-NEWLINE CONTINUES THE LINE, in full: at every point of every input at which the
+    splitter is outside quotes and heredocs and not behind another backslash ([feed] = the state
+    after the prefix), inserting backslash-newline changes nothing - arguments, EOF flag, what
+    is left unread, or the error. *)
+Theorem C17_continuation_anywhere : forall pre s post,
+  feed init_st pre = Some s -> s_mode s = Main -> s_esc s = false ->
+  read_args (pre ++ BSL :: NL :: post) = read_args (pre ++ post).
+Proof. exact continuation_anywhere. Qed.
+Print Assumptions C17_continuation_anywhere.
+
+(** THE NEXT CALL RETURNS THE NEXT COMMAND, in full.  [is_command cl args]: the bytes [cl]
+    followed by a newline are read as one whole command.  Then whatever follows is left for
+    the next call, and a script of any number of commands (last line with or without newline)
+    is read command by command. *)
+Theorem C17_next_command : forall cl args,
+  is_command cl args -> forall rest, read_args (cl ++ NL :: rest) = ROk args false rest.
+Proof. exact command_then_rest. Qed.
+Print Assumptions C17_next_command.
+
+Theorem C17_script : forall cls argss last lastargs n,
+  Forall2 is_command cls argss ->
+  read_args last = ROk lastargs true [] ->
+  (length cls < n)%nat ->
+  read_all n (script cls ++ last)
+  = map (fun a => ROk a false []) argss ++ [ROk lastargs true []].
+Proof. exact read_all_script. Qed.
+Print Assumptions C17_script.
+
+Theorem C17_tokens_command : forall g0 l args,
+  is_filler g0 = true -> gaps_ok l = true ->
+  Forall2 (token false) (map fst l) args ->
+  is_command (g0 ++ join_gaps l) args.
+Proof. exact tokens_is_command. Qed.
+Print Assumptions C17_tokens_command.
+
+(** BYTE-PRESERVING, for ALL inputs (no token shape assumed): the returned arguments,
+    concatenated in order, are a subsequence of the bytes consumed - nothing is invented,
+    re-encoded (F23), duplicated or reordered, and nothing comes from behind the newline. *)
+Theorem C17_provenance : forall input args eof rest,
+  read_args input = ROk args eof rest ->
+  exists pre, input = pre ++ rest /\ subseq (concat args) pre.
+Proof. exact read_args_provenance. Qed.
+Print Assumptions C17_provenance.
+
+Theorem C17_bytes_from_input : forall input args eof rest a c,
+  read_args input = ROk args eof rest -> In a args -> In c a -> In c input.
+Proof. exact read_args_bytes_from_input. Qed.
+Print Assumptions C17_bytes_from_input.
+
+(** HEREDOC in terms of the text: [C17_heredoc_token] with its hypothesis about the scanning
+    ([first_match_at_end]) replaced by a condition on the text alone - no newline of the text is
+    directly followed by the marker. *)
+Theorem C17_heredoc_text : forall k M t,
+  good_word (k ++ [EQS; LT]) = true ->
+  M <> [] -> forallb is_marker_char M = true ->
+  no_marker_after_nl M t = true ->
+  token false (k ++ [EQS; LT; LT] ++ M ++ NL :: t ++ NL :: M) (k ++ EQS :: trim t).
+Proof. exact (token_heredoc_text false). Qed.
+Print Assumptions C17_heredoc_text.
+
+(** ... and the clause as worded (the text between the marker LINES: no line of the text IS the
+    marker) is FALSE of the model and of the code: a line that only BEGINS with the marker ends
+    the heredoc.  Checked against varutil.ReadArguments with a throw-away test: the same answers. *)
+Theorem C17_heredoc_lines_refuted : ~ heredoc_by_lines.
+Proof. exact heredoc_by_lines_refuted. Qed.
+Print Assumptions C17_heredoc_lines_refuted.
+
+Theorem C17_heredoc_marker_prefix_refuted :
+  read_all 3 [107; 61; 60; 60; 69; 79; 70; 10; 97; 10; 69; 79; 70; 88; 10; 69; 79; 70; 10]
+  = [ROk [[107; 61; 97; 88]] false []; ROk [[69; 79; 70]] false []; ROk [] true []].
+Proof. exact heredoc_marker_prefix_witness. Qed.
+Print Assumptions C17_heredoc_marker_prefix_refuted.
+
+Theorem C17_heredoc_empty_refuted :
+  read_args [107; 61; 60; 60; 69; 79; 70; 10; 69; 79; 70; 10; 110; 101; 120; 116; 10] = RErr.
+Proof. exact heredoc_empty_witness. Qed.
+Print Assumptions C17_heredoc_empty_refuted.
+
+(** Quoting that escapes a backslash INSIDE the quotes is not reversible (the backslash is
+    lost), which is why the reference quoting function writes it outside. *)
+Theorem C17_naive_quote_refuted : ~ (forall a, token false (quote1_naive a) a).
+Proof. exact quote1_naive_refuted. Qed.
+Print Assumptions C17_naive_quote_refuted.
+
+(** NAMED TO KEYS, POSITIONAL TO $0,$1,.. IN ORDER, in terms of the argument text alone and
+    keeping the interleaving: the j-th argument makes the j-th SetValue call; it is named iff
+    it contains '='; key = text before the first '=' without up to two leading dashes, value =
+    everything after it; a positional one is bound to $n, n = number of positional arguments
+    before it.  Everything behind the FIRST bare -- is passed through and not numbered.
+    ([C17_inject_positional] / [C17_inject_named] state the two projections with [is_named]
+    defined through the model's own helper.) *)
+Theorem C17_inject_nth : forall args i j a,
+  nth_error args j = Some a ->
+  nth_error (inject_from i args) j
+  = Some (if has_eq a then named_kv a else (KPos (i + count_pos (firstn j args)), a)).
+Proof. exact inject_from_nth. Qed.
+Print Assumptions C17_inject_nth.
+
+Theorem C17_inject_length : forall args i, length (inject_from i args) = length args.
+Proof. exact inject_from_length. Qed.
+Print Assumptions C17_inject_length.
+
+Theorem C17_named_iff_contains_eq : forall a, is_named a = has_eq a.
+Proof. exact is_named_has_eq. Qed.
+Print Assumptions C17_named_iff_contains_eq.
+
+Theorem C17_named_key_value : forall k v,
+  has_eq k = false -> named_kv (k ++ EQS :: v) = (KName (trim_dash (trim_dash k)), v).
+Proof. exact named_kv_spec. Qed.
+Print Assumptions C17_named_key_value.
+
+Theorem C17_inject_args_sep : forall args rest,
+  forallb (fun a => negb (is_sep_arg a)) args = true ->
+  inject_args (args ++ [DASH; DASH] :: rest) = (inject_from 0 args, rest).
+Proof. exact inject_args_sep. Qed.
+Print Assumptions C17_inject_args_sep.
+
+Theorem C17_inject_args_nosep : forall args,
+  forallb (fun a => negb (is_sep_arg a)) args = true ->
+  inject_args args = (inject_from 0 args, []).
+Proof. exact inject_args_nosep. Qed.
+Print Assumptions C17_inject_args_nosep.
+
+(** Non-vacuity of the new implications: concrete inputs meeting every hypothesis.
+    SP TAB a SP \ NL TAB b TAB TAB \ NL SP c SP \ NL NL x *)
+Example C17_ex_gaps_hyp :
+  is_filler [32; 9] = true /\
+  gaps_ok [([97], [32; 92; 10; 9]); ([98], [9; 9; 92; 10; 32]); ([99], [32; 92; 10])] = true /\
+  forallb good_word (map fst [([97], [32; 92; 10; 9]); ([98], [9; 9; 92; 10; 32]); ([99], [32; 92; 10])]) = true.
+Proof. vm_compute. repeat split; reflexivity. Qed.
+Example C17_ex_gaps :
+  read_args ([32; 9] ++ join_gaps [([97], [32; 92; 10; 9]); ([98], [9; 9; 92; 10; 32]); ([99], [32; 92; 10])] ++ NL :: [120])
+  = ROk [[97]; [98]; [99]] false [120].
+Proof. vm_compute. reflexivity. Qed.
+Example C17_ex_sp_gaps : forall ts, gaps_ok (sp_gaps ts) = true /\ map fst (sp_gaps ts) = ts.
+Proof. intros ts. split; [apply sp_gaps_ok|apply sp_gaps_fst]. Qed.
+(** between two arguments, and inside a quoted section where the hypothesis fails and so does
+    the conclusion *)
+Example C17_ex_continuation_hyp :
+  exists s, feed init_st [97; 32] = Some s /\ s_mode s = Main /\ s_esc s = false.
+Proof. eexists. vm_compute. repeat split; reflexivity. Qed.
+Example C17_ex_continuation_quote :
+  (exists s, feed init_st [97; 32; 34; 98] = Some s /\ s_mode s = InQuote) /\
+  read_args ([97; 32; 34; 98] ++ BSL :: NL :: [34; 10]) <> read_args ([97; 32; 34; 98] ++ [34; 10]).
+Proof. split; [eexists; vm_compute; split; reflexivity|vm_compute; discriminate]. Qed.
+Example C17_ex_script_hyp :
+  Forall2 is_command [[97; 32; 98]; []; [34; 120; 10; 34]] [[[97]; [98]]; []; [[120; 10]]] /\
+  read_args [99] = ROk [[99]] true [].
+Proof. split; [repeat constructor|]; vm_compute; reflexivity. Qed.
+Example C17_ex_script :
+  read_all 5 (script [[97; 32; 98]; []; [34; 120; 10; 34]] ++ [99])
+  = [ROk [[97]; [98]] false []; ROk [] false []; ROk [[120; 10]] false []; ROk [[99]] true []].
+Proof. vm_compute. reflexivity. Qed.
+Example C17_ex_provenance_hyp :
+  read_args [34; 97; 32; 195; 92; 34; 34; 98; 10; 99] = ROk [[97; 32; 195; 34; 98]] false [99].
+Proof. vm_compute. reflexivity. Qed.
+Example C17_ex_heredoc_text_hyp :
+  no_marker_after_nl [69; 79; 70] [69; 79; 70; 88; 10; 32; 69; 79; 70; 10; 69; 79] = true /\
+  no_marker_after_nl [69; 79; 70] [97; 10; 69; 79; 70; 88] = false.
+Proof. vm_compute. split; reflexivity. Qed.
+(** a, --k=v=w, -b, --, c *)
+Example C17_ex_inject :
+  inject_args [[97]; [45; 45; 107; 61; 118; 61; 119]; [45; 98]; [45; 45]; [99]]
+  = ([(KPos 0, [97]); (KName [107], [118; 61; 119]); (KPos 1, [45; 98])], [[99]]).
+Proof. vm_compute. reflexivity. Qed.
+Example C17_ex_inject_hyp :
+  forallb (fun a => negb (is_sep_arg a)) [[97]; [45; 45; 107; 61; 118; 61; 119]; [45; 98]] = true /\
+  nth_error [[97]; [45; 45; 107; 61; 118; 61; 119]; [45; 98]] 2 = Some [45; 98] /\
+  has_eq [45; 45; 107] = false.
+Proof. vm_compute. repeat split; reflexivity. Qed.
